@@ -1,6 +1,6 @@
 import MuduoVerif.Proofs.ConnLifeTrace
 import MuduoVerif.Proofs.ConnProgress
-import MuduoVerif.Proofs.OwnerExit
+import MuduoVerif.Proofs.OwnerStrand
 import MuduoVerif.Proofs.ConnSkelTie
 /-!
 # C02 — each connection gets exactly one UP, then messages, then exactly one DOWN; clean destruction
@@ -223,10 +223,11 @@ end MuduoVerif.C02
 
 Model: `Model/Owner.lean` (acceptor loop + `L` io loops as FIFO functor queues, any number of connections, every
 interleaving; hand-offs, name construction, life token and final drain from `Generated/Owner.lean`).  Invariant and its
-preservation: `Proofs/Owner*.lean`.  Hypotheses, stated explicitly: connection names are distinct (`Function.Injective
-nameOf`; negation witness `owner_name_collision_witness`) and no `EventLoop` object is destroyed while a
-`connectEstablished` / `connectDestroyed` functor is stranded in its queue (`GoodSched`; negation witness
-`owner_stranded_witness` - a genuine defect of the final drain for connections served by the quitting loop).
+preservation: `Proofs/Owner*.lean`.  Hypothesis, stated explicitly: connection names are distinct (`Function.Injective
+nameOf`; negation witness `owner_name_collision_witness`; `owner_name_buffer_fits` for the code's side).  That no
+`EventLoop` object is destroyed while a `connectEstablished` / `connectDestroyed` functor is stranded in its queue
+(`GoodSched`) is a theorem for the code as it is (`owner_goodSched`: final drain, repeated until empty); negation witnesses
+for the two earlier shapes: `server_destruction_needs_drain` (no drain, F10), `owner_stranded_witness` (one drain, F29).
 -/
 namespace MuduoVerif.C02
 open MuduoVerif.Owner MuduoVerif.Gen.Owner
@@ -238,12 +239,18 @@ abbrev oreach (L : Nat) (nameOf : Nat → Nat) (as : List Action) : Srv := Owner
 
 section owner
 variable (L : Nat) (nameOf : Nat → Nat) (hinj : Function.Injective nameOf) (as : List Action)
-  (hgood : GoodSched (Owner.init L nameOf) as)
-include hinj hgood
+include hinj
+
+/-- **no schedule strands a functor**: the code drains a loop's functor queue when the loop leaves `loop()`, repeatedly
+until it is empty (`Generated/Owner.lean: finalDrain, finalDrainRepeats`, read from `EventLoop::loop`); hence no schedule
+whatsoever destroys an `EventLoop` object with a `connectEstablished` / `connectDestroyed` functor left in its queue
+(negation witnesses for a missing / a single drain: `server_destruction_needs_drain`, `owner_stranded_witness`) -/
+theorem owner_goodSched : GoodSched (Owner.init L nameOf) as :=
+  goodSched_all as _ (ginv_init L nameOf) (xinv_init L nameOf) (fun h => by simp [Owner.init] at h) hinj rfl rfl
 
 /-- the invariant of the ownership protocol holds in every reachable state -/
 theorem owner_inv : GInv (oreach L nameOf as) :=
-  ginv_run as _ (ginv_init L nameOf) hinj hgood
+  ginv_run as _ (ginv_init L nameOf) hinj (owner_goodSched L nameOf hinj as)
 
 /-- **owner_updown**: for every connection of a `TcpServer` with any number of io loops, in every interleaving: it is
 announced (`newConnection`) once, the connection callback reports UP at most once and only after that, DOWN at most once,
@@ -258,7 +265,7 @@ theorem owner_updown (c : Nat) (hc : c < (oreach L nameOf as).n) :
       (e.kind = .msg → cntK c .up pre = 1 ∧ cntK c .down pre = 0) ∧
       (e.kind = .down → cntK c .up pre = 1 ∧ cntK c .down pre = 0) := by
   intro s
-  have hi : CInv s c := (owner_inv L nameOf hinj as hgood).conns c hc
+  have hi : CInv s c := (owner_inv L nameOf hinj as).conns c hc
   obtain ⟨a, ha, hb, hcb, hd, hdead, her⟩ := hi.core.life
   obtain ⟨h1, h2, h3, h4, h5, h6, h7, h8, h9, h10⟩ := Owner.life_counts c _ a ha
   refine ⟨by rw [h1, hb]; rfl, by rw [h2]; split <;> omega, by rw [h3]; split <;> omega, h7, ?_, ?_, ?_⟩
@@ -276,13 +283,13 @@ server was destroyed) and the loops have run their queues, the connection has ha
 theorem owner_down_once (c : Nat) (hc : c < (oreach L nameOf as).n) (hq : (oreach L nameOf as).quiet)
     (hcause : ((oreach L nameOf as).conn c).cause = true) :
     cntK c .up (oreach L nameOf as).trace = 1 ∧ cntK c .down (oreach L nameOf as).trace = 1 := by
-  have hi := (owner_inv L nameOf hinj as hgood).conns c hc
+  have hi := (owner_inv L nameOf hinj as).conns c hc
   have hst : ((oreach L nameOf as).conn c).st = .kDisconnected := by
     rcases hi.cause hcause with h | h | h
     · exact h
     · rw [(hq _).1] at h; cases h
     · rw [(hq _).1] at h; cases h
-  obtain ⟨_, _, _, _, h5, h6, _⟩ := owner_updown L nameOf hinj as hgood c hc
+  obtain ⟨_, _, _, _, h5, h6, _⟩ := owner_updown L nameOf hinj as c hc
   exact ⟨h5.mpr (by rw [hst]; decide), h6.mpr hst⟩
 
 /-- **owner_affinity**: every callback of a connection (UP, message, DOWN, close callback) and its `connectDestroyed` run
@@ -293,7 +300,7 @@ theorem owner_affinity (e : Ev) (he : e ∈ (oreach L nameOf as).trace) :
       e.loop = ((oreach L nameOf as).conn e.conn).loop) ∧
     (e.kind = .new ∨ e.kind = .erase → e.loop = 0) ∧
     e.kind ≠ .abort ∧ e.kind ≠ .eraseMiss ∧ e.kind ≠ .uaf := by
-  have hg := owner_inv L nameOf hinj as hgood
+  have hg := owner_inv L nameOf hinj as
   have haff := hg.rest.aff e he
   have hbad : e.kind ≠ .abort ∧ e.kind ≠ .eraseMiss ∧ e.kind ≠ .uaf := by
     by_cases hc : e.conn < (oreach L nameOf as).n
@@ -313,7 +320,7 @@ theorem owner_affinity (e : Ev) (he : e ∈ (oreach L nameOf as).trace) :
 when there are no io loops -/
 theorem round_robin (c : Nat) (hc : c < (oreach L nameOf as).n) :
     ((oreach L nameOf as).conn c).loop = if L = 0 then 0 else c % L + 1 := by
-  have h := (owner_inv L nameOf hinj as hgood).rest.assigned c hc
+  have h := (owner_inv L nameOf hinj as).rest.assigned c hc
   have hL : (oreach L nameOf as).L = L := by
     have : ∀ (as : List Action) (s : Srv), (Owner.run s as).L = s.L := by
       intro as; induction as with
@@ -332,7 +339,7 @@ theorem owner_map (c : Nat) :
     (∀ e ∈ s.map, e.1 = nameOf (idInitial + e.2 * idStep)) ∧
     (∀ pre e post, s.trace = pre ++ e :: post → e.conn = c → e.kind = .erase → cntK c .down pre = 1 ∧ cntK c .erase pre = 0) := by
   intro s
-  have hg : GInv s := owner_inv L nameOf hinj as hgood
+  have hg : GInv s := owner_inv L nameOf hinj as
   have hN : s.nameOf = nameOf := by
     have : ∀ (as : List Action) (s : Srv), (Owner.run s as).nameOf = s.nameOf := by
       intro as; induction as with
@@ -387,7 +394,7 @@ theorem owner_destroy_clean (c : Nat) (hc : c < (oreach L nameOf as).n) :
     (∀ pre e post, s.trace = pre ++ e :: post → e.conn = c → e.kind = .dtor →
       cntK c .down pre = 1 ∧ cntK c .destroyed pre = 1 ∧ cntK c .dtor pre = 0) := by
   intro s
-  have hg : GInv s := owner_inv L nameOf hinj as hgood
+  have hg : GInv s := owner_inv L nameOf hinj as
   have hi := hg.conns c hc
   obtain ⟨a, ha, hb, hcb, hd, hdead, her⟩ := hi.core.life
   obtain ⟨h1, h2, h3, h4, h5, h6, _⟩ := Owner.life_counts c _ a ha
@@ -415,7 +422,7 @@ connection object is destroyed (and, by `owner_destroy_clean`, its descriptor cl
 theorem owner_no_leak (c : Nat) (hc : c < (oreach L nameOf as).n) (hq : (oreach L nameOf as).quiet)
     (hcause : ((oreach L nameOf as).conn c).cause = true) (hu : ((oreach L nameOf as).conn c).user = 0) :
     ((oreach L nameOf as).conn c).alive = false ∧ ((oreach L nameOf as).conn c).fdOpen = false := by
-  have hg := owner_inv L nameOf hinj as hgood
+  have hg := owner_inv L nameOf hinj as
   have hi := hg.conns c hc
   have hst : ((oreach L nameOf as).conn c).st = .kDisconnected := by
     rcases hi.cause hcause with h | h | h
@@ -450,7 +457,7 @@ theorem server_destruction (hdead : (oreach L nameOf as).alive = false) (hq : (o
     (s.conn c).st = .kDisconnected ∧ (s.conn c).registered = false ∧
     ((s.conn c).user = 0 → (s.conn c).alive = false ∧ (s.conn c).fdOpen = false ∧ cntK c .dtor s.trace = 1) := by
   intro s
-  have hg : GInv s := owner_inv L nameOf hinj as hgood
+  have hg : GInv s := owner_inv L nameOf hinj as
   have hi := hg.conns c hc
   have hio : ioQ s c = [] := by unfold ioQ; rw [(hq _).1]; rfl
   have hrem : remN s c = 0 := by unfold remN; rw [(hq _).1]; rfl
@@ -489,7 +496,7 @@ theorem server_destruction_drained (hdead : (oreach L nameOf as).alive = false)
     (s.conn c).st = .kDisconnected ∧ (s.conn c).registered = false ∧
     ((s.conn c).user = 0 → (s.conn c).alive = false ∧ (s.conn c).fdOpen = false ∧ cntK c .dtor s.trace = 1) := by
   intro s
-  have hx : XInv s := xinv_run as _ (ginv_init L nameOf) hinj hgood (xinv_init L nameOf)
+  have hx : XInv s := xinv_run as _ (ginv_init L nameOf) hinj (owner_goodSched L nameOf hinj as) (xinv_init L nameOf)
   have hd : s.drain = true := by
     have : s.drain = (Owner.init L nameOf).drain := run_drain as _
     rw [this]; rfl
@@ -500,16 +507,9 @@ theorem server_destruction_drained (hdead : (oreach L nameOf as).alive = false)
       | cons a as ih => intro s; exact (ih (step s a)).trans (same_step s a).1
     exact this as _
   have hq : s.quiet := quiet_of_exited s hx hd (fun l h1 h2 => hio l h1 (hL ▸ h2)) hbase
-  exact ⟨hq, server_destruction L nameOf hinj as hgood hdead hq c hc⟩
+  exact ⟨hq, server_destruction L nameOf hinj as hdead hq c hc⟩
 
 end owner
-
-/-- **no hypothesis on the schedule when there are io loops**: with `L ≥ 1` io loops (and the final drain the code has)
-every schedule satisfies `GoodSched` - all the theorems above hold for every interleaving whatsoever; the hypothesis only
-restricts servers whose base loop serves the connections itself (`owner_stranded_witness`) -/
-theorem owner_goodSched_io (L : Nat) (nameOf : Nat → Nat) (hinj : Function.Injective nameOf) (hL : L ≠ 0) (as : List Action) :
-    GoodSched (Owner.init L nameOf) as :=
-  goodSched_io as _ (ginv_init L nameOf) (xinv_init L nameOf) hinj hL rfl
 
 /-- **the name buffer is large enough** (the premise of `Function.Injective nameOf` on the code's side): the longest
 suffix `newConnection` formats, `-[xxxx:xxxx:xxxx:xxxx:xxxx:xxxx:xxxx:xxxx]:65535#2147483647` (1 + 47 + 1 + 10
@@ -526,15 +526,20 @@ theorem owner_name_collision_witness :
     (s.conn 0).alive = false ∧ (s.conn 0).st = .kConnected ∧ (s.conn 0).registered = true ∧ cntK 0 .down s.trace = 0 := by
   decide
 
-/-- **negation witness for the hypothesis `GoodSched`** (a genuine defect of the code as it is): one loop serves the
-connection; `forceCloseInLoop` runs in the drain at the exit of `loop()`, the `connectDestroyed` it causes is queued behind
-that drain and is destroyed with the `EventLoop` object without having run: the connection is destroyed with its channel
-still registered -/
+/-- **negation witness for a final drain that runs only once** (the defect F29, repaired: `init` takes `drainRepeats`
+from the source, `do { doPendingFunctors(); } while (queueSize() > 0)`): one loop serves the connection;
+`forceCloseInLoop` runs in the drain at the exit of `loop()`, the `connectDestroyed` it causes is queued behind that drain
+and is destroyed with the `EventLoop` object without having run: the schedule violates `GoodSched` and the connection is
+destroyed with its channel still registered.  With the repeated drain the same schedule is fine. -/
 theorem owner_stranded_witness :
     let as : List Action := [.accept, .forceClose 0 1, .exit 0, .destroy, .loopGone 0]
-    let s := oreach 0 id as
-    ¬ GoodSched (Owner.init 0 id) as ∧ (s.conn 0).alive = false ∧ (s.conn 0).registered = true ∧ cntK 0 .destroyed s.trace = 0 := by
-  refine ⟨?_, by decide, by decide, by decide⟩
+    let bad := Owner.run { Owner.init 0 id with drainRepeats := false } as
+    let good := oreach 0 id as
+    ¬ GoodSched { Owner.init 0 id with drainRepeats := false } as ∧
+    ((bad.conn 0).alive = false ∧ (bad.conn 0).registered = true ∧ cntK 0 .destroyed bad.trace = 0) ∧
+    (GoodSched (Owner.init 0 id) as ∧ (good.conn 0).alive = false ∧ (good.conn 0).registered = false ∧
+      cntK 0 .down good.trace = 1 ∧ cntK 0 .destroyed good.trace = 1) := by
+  refine ⟨?_, by decide, goodSched_of_goodB _ _ (by decide), by decide, by decide, by decide, by decide⟩
   intro h
   have := h.2.2.2.2.1 0 rfl (by decide) (.des 0) (by decide) 0
   exact this.2 rfl
